@@ -405,7 +405,7 @@ def check(devs, seq, ctx):
 
 
 # ------------------------------------------------------------------------------------------------ other routes to the writer
-ROUTES = ["read", "OsuToSM", "QuaToSM", "BMSToSM", "rate", "read+rate"]
+ROUTES = ["read", "OsuToSM", "QuaToSM", "BMSToSM", "rate", "read+rate", "write/edit-offsets/write", "write/edit-bpm/write", "write/edit-holds/write"]
 
 
 def check_route(route, ctx):
@@ -421,6 +421,20 @@ def check_route(route, ctx):
             ms = SMMapSet.read(starts.SM_TEXT.split("\n"))
             if route == "read+rate":
                 ms = ms.rate(1.5)
+        elif route.startswith("write/"):
+            # a stale cache would show here: write once, edit the SAME list objects in place, write again
+            ms = charts.make_mapset("sm", [starts.make("sm", "plain"), starts.make("sm", "empties")], dict(title="t", artist="a", credit="c", offset=0.0, music="m.ogg"))
+            ms.write()
+            if "offsets" in route:
+                s_ = ms.stack()
+                s_.offset += 250
+                ms.offset = 250.0
+            elif "bpm" in route:
+                for m_ in ms.maps:
+                    m_.bpms.bpm = m_.bpms.bpm * 2
+            else:
+                ms.maps[0].holds.offset += 500
+                ms.maps[0].holds.length = ms.maps[0].holds.length * 2
         elif route == "rate":
             ms = charts.make_mapset("sm", [starts.make("sm", "plain")], dict(title="t", artist="a", credit="c", offset=0.0, music="m.ogg")).rate(1.5)
         elif route == "OsuToSM":
